@@ -1,4 +1,6 @@
 import HcipyVerif.Lemmas.ApertureMain
+import HcipyVerif.Lemmas.AperturePolygon
+import HcipyVerif.Lemmas.ApertureKeck
 
 /-!
 # C12 — Apertures depend only on the physical points, not on the grid representation
@@ -141,13 +143,26 @@ theorem bounding_slices_empty {even : Bool} {r a : Rat} {dirs : List (Rat × Rat
     (decide (sq (xs.getD j 0) ≤ sq r) && decide (sq (ys.getD i 0) ≤ sq r)) = false :=
   regpolySub_none h i j hi hj
 
-/-- Irregular polygon, y direction only: a point with odd crossing number has a vertex at or below
-and a vertex strictly above it.  **Partial**: the x direction (and hence "inside the bounding
-rectangle of the vertices") needs the parity argument for closed polygons and is not proved; the
-model therefore keeps the rectangle test as part of `val (.irrpoly …)`, as the code does. -/
-theorem bounding_box_irregular_y_partial {vs : List Pt} {p : Pt} (h : containsPt vs p = true) :
-    (∃ v ∈ vs, v.2 ≤ p.2) ∧ (∃ w ∈ vs, p.2 < w.2) :=
-  containsPt_bbox_y_partial h
+/-- **Irregular polygon: the bounding box of the vertices is sound on all four sides.**  A point
+with odd crossing number has a vertex at or left of it, one strictly right of it, one at or below
+it and one strictly above it.  (+x: the intercept of a straddling edge is a convex combination of
+its end points, so no edge is crossed from the right of all vertices; −x: every straddling edge is
+crossed, and a closed polygon straddles a horizontal line an even number of times.) -/
+theorem bounding_box_irregular {vs : List Pt} {p : Pt} (h : containsPt vs p = true) :
+    (∃ v ∈ vs, v.1 ≤ p.1) ∧ (∃ w ∈ vs, p.1 < w.1) ∧ (∃ v ∈ vs, v.2 ≤ p.2) ∧ (∃ w ∈ vs, p.2 < w.2) :=
+  containsPt_bbox h
+
+/-- a closed polygon straddles any horizontal line an even number of times -/
+theorem closed_polygon_straddles_even (vs : List Pt) (p : Pt) :
+    ((edges vs).filter (straddle p)).length % 2 = 0 :=
+  straddles_even vs p
+
+/-- hence the rectangular pre-selection `res[mask] = contains_points(points[mask])` loses nothing
+whenever the rectangle covers the vertices: the aperture *is* the even-odd polygon -/
+theorem irregular_mask_redundant {vs : List Pt} {hx hy bx by_ : Rat}
+    (hbox : ∀ v ∈ vs, |v.1 - bx| ≤ hx ∧ |v.2 - by_| ≤ hy) (p : Pt) :
+    val (.irrpoly vs hx hy bx by_) p = b2r (containsPt vs p) :=
+  irrpoly_mask_redundant hbox p
 
 /-! ## masked assignment of segments -/
 
@@ -259,6 +274,30 @@ theorem polar_shortcut_centred {ρ R x y : Rat} (hr : 0 ≤ ρ) (hR : 0 ≤ R) (
     (ρ ≤ R ↔ sq x + sq y ≤ sq R) :=
   polar_shortcut hr hR h
 
+/-! ## a telescope pupil inside the model: Keck -/
+
+/-- `make_hexagonal_grid(·, n)` produces `1 + 3n(n+1)` segment centres (37 for Keck's 3 rings) -/
+theorem hexagonal_grid_size (n : Nat) (cd ap : Rat) :
+    (hexPositions n cd ap).length = 1 + 3 * n * (n + 1) :=
+  hexPositions_length n cd ap
+
+/-- the Keck pupil (37 hexagonal segments with transmissions, central obscuration, six spiders)
+gets the same field on a separated grid and on the unstructured grid with the same points -/
+theorem keck_representation_independent {segR : Rat} (h : 0 ≤ segR) (rings : Nat)
+    (pitch ap segA : Rat) (dirs : List (Rat × Rat)) (trs : List Rat) (obsR : Rat)
+    (spiders : List (Rat × Rat)) (hw : Rat) (xs ys : List Rat) :
+    evalSep (keckShape rings pitch ap segR segA dirs trs obsR spiders hw) xs ys
+      = evalPts (keckShape rings pitch ap segR segA dirs trs obsR spiders hw) (sepPoints xs ys) :=
+  evalSep_eq_evalPts _ xs ys (keck_wf h rings pitch ap segA dirs trs obsR spiders hw)
+
+/-- … and takes values in [0,1] for transmissions in [0,1] -/
+theorem keck_in_unit_interval (rings : Nat) (pitch ap segR segA : Rat) (dirs : List (Rat × Rat))
+    {trs : List Rat} (htr : ∀ t ∈ trs, 0 ≤ t ∧ t ≤ 1) (obsR : Rat) (spiders : List (Rat × Rat))
+    (hw : Rat) (p : Pt) :
+    0 ≤ val (keckShape rings pitch ap segR segA dirs trs obsR spiders hw) p ∧
+      val (keckShape rings pitch ap segR segA dirs trs obsR spiders hw) p ≤ 1 :=
+  keck_mem_unit rings pitch ap segR segA dirs htr obsR spiders hw p
+
 /-! ## the shipped behaviour violates the property -/
 
 /-- D6: `r ≤ R` on polar grids ignores the centre -/
@@ -280,6 +319,18 @@ example : WF (.seg [((0, 0), 1/2)] (.rot 1 0 (.regpoly true 1 (7/8) [(1, 0), (0,
 
 example : Binary (.mul (.sub (.circle 2 0 0) (.circle 1 0 0)) (.mul (.const 1) (.spider 0 0 1 0 1 (1/8)))) :=
   Binary.mul (binary_obstructed_circle (by simp [rabs])) (Binary.mul Binary.const1 (Binary.spider ..))
+
+example : containsPt [(0, 0), (2, 0), (0, 2)] (1/2, 1/2) = true := by decide +kernel
+
+example : ∀ v ∈ [((0 : Rat), (0 : Rat)), (2, 0), (0, 2)], |v.1 - 1| ≤ (1 : Rat) ∧ |v.2 - 1| ≤ (1 : Rat) := by
+  intro v hv
+  simp at hv
+  rcases hv with rfl | rfl | rfl <;> norm_num [abs_le]
+
+example : ∀ t ∈ [(1 : Rat), 1/2, 0], 0 ≤ t ∧ t ≤ 1 := by
+  intro t ht
+  simp at ht
+  rcases ht with rfl | rfl | rfl <;> norm_num
 
 example : ∃ f, supersampled (.circle 1 0 0) 2 2 [0, 1] [0, 1, 2] = some f := ⟨_, rfl⟩
 
